@@ -61,8 +61,8 @@ package tars
 //@ func (*Protocol).Invoke
 //@   requires s != nil && s.app != nil && s.app.allFilters != nil && s.dispatcher != nil && ctx != nil
 //@   requires [C05] len(req) >= 4
-//@   requires s.ndisp == 0 && s.dispErr == nil
-//@   modifies s.ndisp, s.dispErr
+//@   requires s.ndisp == 0 && s.dispErr == nil && s.nhand == 0
+//@   modifies s.ndisp, s.dispErr, s.nhand
 //@   allocates
 //@   site Dispatch#0 assert [C10] reqPackage.SFuncName != "tars_ping"
 //@   site Dispatch#0 assert [C10] reqPackage.ITimeout > 0 ==> now - recvPkgTs < reqPackage.ITimeout
@@ -70,8 +70,16 @@ package tars
 //@   site Dispatch#0 ghostafter s.dispErr = $ret
 //@   site rsp2Byte#0 assert [C10] rspPackage.IVersion == reqPackage.IVersion && rspPackage.IRequestId == reqPackage.IRequestId && rspPackage.CPacketType == reqPackage.CPacketType
 //@   site rsp2Byte#0 assert [C10] s.ndisp <= 1
+// exactly one mechanism gets the request (ghost nhand): the legacy single filter (dynamic call #1; #0 is a deferred call), else the
+// middleware chain (#2), else pre filters, the dispatcher, post filters - never two of them
+//@   site dynamic#1 assert [C01,C10] s.nhand == 0
+//@   site dynamic#1 ghost s.nhand = s.nhand + 1
+//@   site dynamic#2 assert [C01,C10] s.nhand == 0
+//@   site dynamic#2 ghost s.nhand = s.nhand + 1
+//@   site Dispatch#0 assert [C01,C10] s.nhand == 0
+//@   site Dispatch#0 ghost s.nhand = s.nhand + 1
 //@   site rsp2Byte#0 assert [C01,C10] s.dispErr != nil ==> ((istype(s.dispErr, "*Error") ? rspPackage.IRet == cast(s.dispErr, "*Error").Code : rspPackage.IRet == 1) && rspPackage.SResultDesc == errMsg(s.dispErr))
-//@   loop 0 invariant s != nil && s.app != nil && s.dispatcher != nil && s.ndisp == 0 && s.dispErr == nil
+//@   loop 0 invariant s != nil && s.app != nil && s.dispatcher != nil && s.ndisp == 0 && s.dispErr == nil && s.nhand == 0
 //@   loop 1 invariant s != nil && s.app != nil && s.dispatcher != nil && s.ndisp == 1
 //@   loop 1 invariant err == s.dispErr && (istype(s.dispErr, "*Error") ==> cast(s.dispErr, "*Error") != nil)
 //@   safety [C05]
@@ -219,6 +227,7 @@ package tars
 //@   site SelectAdapterProxy#0 ghost s.gentered = false
 //@   site SelectAdapterProxy#0 ghost s.gotreply = false
 //@   site successAdd#1 ghost s.gotreply = true
+//@   site doInvoke$#1 assert [C15] $sel0 == 1
 //@   ensures [C01] (s.gotreply && msg.Resp != nil && msg.Resp.IRet == 0 && msg.Status == 0) ==> result == nil
 //@   ensures [C01] (s.gotreply && msg.Resp != nil && msg.Resp.IRet != 0 && msg.Resp.IRet != 1 && len(msg.Resp.SResultDesc) > 0) ==> (istype(result, "*Error") && cast(result, "*Error").Code == msg.Resp.IRet && cast(result, "*Error").Message == msg.Resp.SResultDesc)
 //@   ensures [C01] (s.gotreply && msg.Resp != nil && msg.Resp.IRet == 1 && len(msg.Resp.SResultDesc) > 0) ==> (result != nil && errMsg(result) == msg.Resp.SResultDesc)
@@ -226,10 +235,16 @@ package tars
 //@   site Store#0 ghost s.gentered = true
 //@   ensures [C09] s.gentered ==> (msg.Adp != nil && !select(msg.Adp.resp.dom, ifaceof(id0, "int32")))
 //
+// (C15, in doInvoke above: the only goroutine it starts is the reinstatement of a probed endpoint - reset and
+// addAliveEp - and it is started only on the path where the select has taken its second case, the reply.)
+//
 // TarsInvoke (C09): every path that calls doInvoke, directly or through a client filter, passes a context
 // that carries a deadline (the caller's own, or the one armed here from the effective timeout, whatever its
 // value); preInvoke and postInvoke are executed in pairs on every return path. Panics of filters or of the
 // call itself are outside this statement (CheckPanic recovers them).
+// C01: the request that reaches doInvoke (or the client filter / middleware chain) carries the caller's own
+// context map and, when the caller passed one, the caller's own status map (dyeing and trace keys are added
+// to it, its entries are never dropped).
 //
 //@ func (EndpointManager).preInvoke
 //@   trusted
@@ -248,6 +263,7 @@ package tars
 //@   allocates
 //@   ensures ctx.hasdl == old(ctx.hasdl) && msg.Ser == old(msg.Ser) && msg.Ser.ginv == old(msg.Ser.ginv) && msg.Ser.manager == old(msg.Ser.manager)
 //@   ensures [C09] ctx.dl == old(ctx.dl) && msg.Ser.gto == old(msg.Ser.gto) && msg.Ser.ghad == old(msg.Ser.ghad)
+//@   ensures [C01] msg.Req == old(msg.Req) && msg.Req.Context == old(msg.Req.Context) && msg.Req.Status == old(msg.Req.Status)
 //@ func dynamic:reportStatFunc
 //@   trusted
 //@ func (*Message).Init
@@ -260,6 +276,11 @@ package tars
 //@   allocates
 //@   site preInvoke#0 ghost s.ginv = s.ginv + 1
 //@   site postInvoke#0 ghost s.ginv = s.ginv - 1
+//@   let st0 = status
+//@   let rc0 = reqContext
+//@   site doInvoke#0 assert [C01] msg.Req.Context == rc0 && (st0 != nil ==> msg.Req.Status == st0)
+//@   site dynamic#1 assert [C01] msg.Req.Context == rc0 && (st0 != nil ==> msg.Req.Status == st0)
+//@   site dynamic#2 assert [C01] msg.Req.Context == rc0 && (st0 != nil ==> msg.Req.Status == st0)
 //@   site GetClientTimeout#0 ghostafter s.gto = (($ret0 && $ret2) ? s64($ret1 * 1000000) : s64(s.timeout * 1000000))
 //@   site Deadline#0 ghostafter s.ghad = $ret1
 //@   site doInvoke#0 assert [C09] $1.hasdl && (!s.ghad ==> $1.dl == s.gto)
@@ -268,8 +289,11 @@ package tars
 //@   site dynamic#3 assert [C09] $0.hasdl && (!s.ghad ==> $0.dl == s.gto)
 //@   site dynamic#4 assert [C09] $0.hasdl && (!s.ghad ==> $0.dl == s.gto)
 //@   ensures [C09] s.ginv == old(s.ginv)
-//@   loop 0 invariant s != nil && s.manager != nil && msg != nil && msg.Ser == s && ctx.hasdl && (!s.ghad ==> ctx.dl == s.gto) && s.ginv == old(s.ginv) + 1
-//@   loop 1 invariant s != nil && s.manager != nil && msg != nil && msg.Ser == s && ctx.hasdl && (!s.ghad ==> ctx.dl == s.gto) && s.ginv == old(s.ginv) + 1
+//@   loop 0 invariant s != nil && s.manager != nil && msg != nil && msg.Ser == s && ctx.hasdl && s.ginv == old(s.ginv) + 1
+//@   loop 0 invariant [C09] !s.ghad ==> ctx.dl == s.gto
+//@   loop 0 invariant [C01] msg.Req != nil && msg.Req.Context == rc0 && (st0 != nil ==> msg.Req.Status == st0)
+//@   loop 1 invariant s != nil && s.manager != nil && msg != nil && msg.Ser == s && ctx.hasdl && s.ginv == old(s.ginv) + 1
+//@   loop 1 invariant [C09] !s.ghad ==> ctx.dl == s.gto
 //@   loop 0 modifies everything
 //@   loop 1 modifies everything
 //
@@ -331,3 +355,38 @@ package tars
 //@   loop 1 invariant e != nil && e.comm != nil && e.comm.Client != nil && epListHealthy(e) && e.activeEpRoundRobin != nil && e.activeEpConHash != nil && e.activeEpModHash != nil && adp != nil && firstTime && !adp.status && adp.failCount >= overN
 //@   loop 0 modifies everything
 //@   loop 1 modifies everything
+
+// ------------------------------------------------------------------ filter registration (property C01)
+// Registration order is kept: a registration appends at the end of the list and leaves the earlier entries where
+// they are (the chain builders then wrap from the last entry to the first, so the first registered is outermost;
+// that wrapping itself - closures applied to closures - is not specified).
+//
+//@ func (*filters).UseClientFilterMiddleware
+//@   requires f != nil && (cap(f.cfms) == 0 || allocated(f.cfms))
+//@   modifies f.cfms, elems(f.cfms)
+//@   allocates
+//@   ensures [C01] len(f.cfms) == old(len(f.cfms)) + len(cfm)
+//@   ensures [C01] forall i {f.cfms[i]} :: (0 <= i && i < old(len(f.cfms))) ==> f.cfms[i] == old(f.cfms[i])
+//@   ensures [C01] forall j {cfm[j]} :: (0 <= j && j < len(cfm)) ==> f.cfms[old(len(f.cfms)) + j] == old(cfm[j])
+//
+//@ func (*filters).UseServerFilterMiddleware
+//@   requires f != nil && (cap(f.sfms) == 0 || allocated(f.sfms))
+//@   modifies f.sfms, elems(f.sfms)
+//@   allocates
+//@   ensures [C01] len(f.sfms) == old(len(f.sfms)) + len(sfm)
+//@   ensures [C01] forall i {f.sfms[i]} :: (0 <= i && i < old(len(f.sfms))) ==> f.sfms[i] == old(f.sfms[i])
+//@   ensures [C01] forall j {sfm[j]} :: (0 <= j && j < len(sfm)) ==> f.sfms[old(len(f.sfms)) + j] == old(sfm[j])
+//
+//@ func (*filters).registerPreServerFilter
+//@   requires f != nil && (cap(f.preSfs) == 0 || allocated(f.preSfs))
+//@   modifies f.preSfs, elems(f.preSfs)
+//@   allocates
+//@   ensures [C01] len(f.preSfs) == old(len(f.preSfs)) + 1 && f.preSfs[old(len(f.preSfs))] == sf
+//@   ensures [C01] forall i {f.preSfs[i]} :: (0 <= i && i < old(len(f.preSfs))) ==> f.preSfs[i] == old(f.preSfs[i])
+//
+//@ func (*filters).registerPostServerFilter
+//@   requires f != nil && (cap(f.postSfs) == 0 || allocated(f.postSfs))
+//@   modifies f.postSfs, elems(f.postSfs)
+//@   allocates
+//@   ensures [C01] len(f.postSfs) == old(len(f.postSfs)) + 1 && f.postSfs[old(len(f.postSfs))] == sf
+//@   ensures [C01] forall i {f.postSfs[i]} :: (0 <= i && i < old(len(f.postSfs))) ==> f.postSfs[i] == old(f.postSfs[i])
